@@ -100,13 +100,17 @@ Value == [dg |-> 1, ds |-> 2, pg |-> 4, ps |-> 8]
 Defines(b) == CASE b = "g" -> {"dg"} [] b = "gs" -> {"dg", "ds"} [] b = "sP" -> {"ds", "pg"} [] OTHER -> {"dg", "ds", "pg", "ps"}
 Applies(d, stageLayers) == (IF d.plat = "plat" THEN {"dg", "ds", "pg", "ps"} ELSE {"dg", "ds"})
                            \cap (IF stageLayers THEN {"dg", "ds", "pg", "ps"} ELSE {"dg", "pg"})
-Winner(p, d, stageLayers) ==
+Winner(p, d, stageLayers, val, builtin) ==
     LET act == Defines(p.bp) \cap Applies(d, stageLayers)
         idx == {i \in 1 .. 4 : LayerOrder[i] \in act}
-    IN  IF idx = {} THEN 1                                                \* built-in default
-        ELSE Value[LayerOrder[CHOOSE i \in idx : \A j \in idx : j <= i]]
-Threads(p, d)  == Winner(p, d, TRUE)        \* every instance of the stage-1 component, whenever it was instantiated
-Threads2(p, d) == Winner(p, d, FALSE)
+    IN  IF idx = {} THEN builtin
+        ELSE val[LayerOrder[CHOOSE i \in idx : \A j \in idx : j <= i]]
+Threads(p, d)  == Winner(p, d, TRUE, Value, 1)   \* every instance of the stage-1 component, whenever it was instantiated
+Threads2(p, d) == Winner(p, d, FALSE, Value, 1)
+(* The same layers also define a VARIABLE (`chunk`) with the same precedence: a stage value shadows the global one of  *)
+(* its platform, the platform's values shadow the default platform's.  The stage-1 component uses it.                  *)
+ChunkValue == [dg |-> 10, ds |-> 200, pg |-> 40, ps |-> 500]
+Chunk(p, d) == Winner(p, d, TRUE, ChunkValue, 0)
 
 (* A stage-1 variable `lz` whose value references what only a component knows (replica, loopIteration) and the       *)
 (* variable `mode`, which the component overrides: it is resolved by the component, with the component's `mode`,     *)
@@ -133,7 +137,7 @@ DExplicit(p) == IF p.ex = "empty"
 
 View(p, d) == [live |-> d.live, plat |-> d.plat, uv |-> UvVal(d), pv |-> PvVal(d), sv |-> SvVal(d),
                nrep |-> Replicas(p, d), wall |-> Walltime(d), ovr |-> Override(d), pp |-> PpVal(d), iters |-> d.iters,
-               threads |-> Threads(p, d), threads2 |-> Threads2(p, d), lzp |-> LzPrefix(p, d),
+               threads |-> Threads(p, d), threads2 |-> Threads2(p, d), chunk |-> Chunk(p, d), lzp |-> LzPrefix(p, d),
                opt |-> Explicit(p), dopt |-> DExplicit(p)]
 
 ---------------------------------------------------------------------------
